@@ -61,6 +61,8 @@ const EXT_PACKAGE: &str = r#"{
 /// and a supporting Assertion, and a contested functional slot: the rival
 /// tuples (a status "on") = P-2, supported by b, and (a status "off") = P-3,
 /// supported by a (`status` is declared `functional: true` in BASE_PACKAGE).
+/// A second subject shares the predicate: (b status "on") = P-4, which nobody
+/// asserted, and (b status "busy") = P-5, supported by b.
 pub const SEED: &str = r#"MUTATE {
     CREATE CONCEPT ?a { TYPE "Person" NAME "Ann" SET FIELDS {key: "a"} SET ATTRIBUTES {display_name: "Ann"} }
     CREATE CONCEPT ?b { TYPE "Person" NAME "Bob" SET FIELDS {key: "b"} }
@@ -71,6 +73,8 @@ pub const SEED: &str = r#"MUTATE {
     ENSURE PROPOSITION ?p (?a, "prefers", ?d)
     ENSURE PROPOSITION ?s (?a, "status", "on")
     ENSURE PROPOSITION ?s2 (?a, "status", "off")
+    ENSURE PROPOSITION ?sb (?b, "status", "on")
+    ENSURE PROPOSITION ?sb2 (?b, "status", "busy")
     CREATE EVIDENCE ?e { SET FIELDS {evidence_class: "user_statement", payload: "I prefer dark.", observed_at: "2026-01-01T00:00:00Z"} }
     CREATE ASSERTION ?as { SET FIELDS {proposition: ?p, asserted_by: ?a, stance: "support", mode: "stated",
                                        confidence: 0.9, asserted_at: "2026-01-02T00:00:00Z"}
@@ -79,6 +83,8 @@ pub const SEED: &str = r#"MUTATE {
                                         confidence: 0.7, asserted_at: "2026-01-03T00:00:00Z"} }
     CREATE ASSERTION ?as3 { SET FIELDS {proposition: ?s2, asserted_by: ?a, stance: "support", mode: "stated",
                                         confidence: 0.8, asserted_at: "2026-01-04T00:00:00Z"} }
+    CREATE ASSERTION ?as4 { SET FIELDS {proposition: ?sb2, asserted_by: ?b, stance: "support", mode: "stated",
+                                        confidence: 0.9, asserted_at: "2026-01-05T00:00:00Z"} }
 }"#;
 
 /// Byte-level snapshots of the bootstrapped database.
